@@ -8,7 +8,7 @@ from hypothesis import strategies as st
 
 from conda_content_trust import authentication as A, common as C
 
-from vlib import gen_envelope as GE, gen_json as G, gen_metadata as GM, keys, ref_openpgp, ref_verify as RV
+from vlib import cfgunit, configrun, gen_envelope as GE, gen_json as G, gen_metadata as GM, keys, ref_openpgp, ref_verify as RV
 from vlib.ref_canon import canon, jeq
 from vlib.runner import Unit, Violation
 
@@ -204,7 +204,35 @@ def check_history(case):
             "count": {"steps": len(case["ops"]), "accepted": accepted, "hostile_rejected": rejected_hostile}}
 
 
+@st.composite
+def _config_cases(draw):
+    pool = [keys.POOL[i] for i in range(NPOOL)]
+    v = draw(st.sampled_from([1, 7, 2 ** 53]))
+    ks = [GM.subset_by_mask(pool, draw(st.integers(1, 2 ** NPOOL - 1))) for _ in range(3)]
+    th = [1 + draw(st.integers(0, 5)) % len(k) for k in ks]
+    roots = [_root(v + i, ks[i], th[i]) for i in range(3)]
+    _sign(roots[0], ks[0][:th[0]])
+    for i in (1, 2):
+        _sign(roots[i], list(dict.fromkeys(ks[i - 1][:th[i - 1]] + ks[i][:th[i]])))
+    adv = _sign(_root(v + 1, ADV, 1, extra={"evil": 1}), ADV)                       # self-appointed
+    topped = _sign(_root(v + 1, ks[0] + ADV[:1], 1), ks[0][:th[0] - 1] + ADV[:1])      # < threshold genuine + attacker's own
+    calls = [["verify_root", roots[0], roots[1]], ["verify_root", roots[1], roots[2]], ["verify_root", roots[0], roots[2]],
+             ["verify_root", roots[0], adv], ["verify_root", roots[0], topped], ["verify_root", roots[1], roots[0]],
+             ["verify_root", roots[1], roots[1]]]
+    return {"calls": calls, "config": draw(configrun.configs)}
+
+
+def check_config(case):
+    verdicts, labels, count = cfgunit.config_probe(case["calls"], "iff", case["config"])
+    if verdicts[3] == "accept" or verdicts[4] == "accept":
+        raise Violation("an adversarial offer is accepted under configuration %r" % case["config"], bucket="adversary changed trusted root")
+    return {"nontrivial": verdicts[:2] == ["accept", "accept"], "labels": labels, "count": count}
+
+
 UNITS = [
+    Unit("config", check_config, strategy=_config_cases, quick=24, thorough=400, shards_quick=8, shrink=False,
+         doc="an honest three-link chain plus adversarial / replayed / rolled-back offers in fresh interpreters under drawn "
+             "configurations and discovered environment variables"),
     Unit("history", check_history, strategy=_histories, quick=300, thorough=12000, shards_quick=8,
          essential=["accepted>=2", "revocation", "persist", "reask", "adv", "replay"],
          doc="model-based histories of root update offers with chain invariants after every step"),
